@@ -64,6 +64,15 @@ def cases(tier, seed):
     for pat in (["A", "A", "B"], ["A", "A", "A"], ["A", "B"]):
         for cs in itertools.product([0, 9, 10], repeat=len(pat)):
             out.append({"structure": {"pattern": pat, "counts": list(cs), "outstanding": [True] * len(pat), "seed": seed}, "seed": seed})
+    # district office: unit ids sort '10_...' < '1_...' < '2_...' while district keys sort '1' < '10' < '2', so rows of
+    # outstanding units do not arrive in group-key order; exceeding partial counts in all three districts
+    for setup, n in (("np1", 30), ("ga1", 30)):
+        for agg in ("pc_d", "pc_d_cf"):
+            for combo in (("1", "10", "2"), ("10", "2", "2"), ("2", "1", "1")):
+                probes = [["nonrep_exceed", "pop0", combo[0]], ["nonrep_exceed", "pop1", combo[1]], ["nonrep_partial", "newcounty", combo[2]]]
+                cfg = S.cfg_for(setup, agg, "drop", 100, office="H")
+                cfg["alphas"] = [0.5, 0.9] if setup == "ga1" else [0.5, 0.9]
+                out.append(dict(seed=seed, bg=dict(n=n, layout="AA2", partial=3), probes=probes, cfg=cfg))
     if tier == "thorough":
         t3 = S.probe_types(statuses=["nonrep_partial", "unexpected", "zero_baseline", "nonrep_exceed", "missing"], locations=["pop0", "newcounty", "newstate"])
         for pr in S.multisets(t3, 2):
